@@ -254,6 +254,18 @@ func junkUciLine(r *rand.Rand) string {
 	junk := []string{"b5é", "e2é", "e2日", "g1ф", "é2e4", "ｅ２ｅ４", "e2e4\u00a0", "e7e8x", "e7e8", "a9a1", "e2e", "e2e4e4", "E2E4", "ĲĴĲĴ", "eĲeĴ",
 		"99999999999999999999", "-9223372036854775808", "9223372036854775807", "-1", "0x10", "1e3", "NaN", "+5", "İ", "\u0085", "\u200b",
 		"moves", "fen", "startpos", "name", "value", "depth", "", strings.Repeat("e2e4", 80), strings.Repeat("9", 400), "--", "e2e4;", "#", "0000", "(none)"}
+	if r.Intn(3) == 0 {
+		// a move list with one word that is almost a move: byte length and rune length differ, squares off the board, letters
+		// that only look like the ASCII ones, a promotion letter too many or of the wrong kind
+		almost := []string{"b5é", "e2é", "e2日", "g1ф", "é2e4", "e2éé", "ee2e4", "e2e4é", "e7e8é", "e2e4\u0301", "ｅ２ｅ４", "e2ｅ4", "ĲĴĲĴ", "eĲeĴ", "e²e4",
+			"e2e9", "i2i4", "e0e1", "e2e4k", "e7e8p", "e7e8K", "e2-e4", "e2e4+", "e2 e4", "e2", "e2e", "e2e4e5", "\u00e92e4", "日日日日", "日日日", "éééé", "ééééé", "a1\U0001F600", "\U0001F600a1a2"}
+		pre := []string{"position startpos moves", "position startpos moves e2e4 e7e5", "position fen 8/4P1k1/8/8/8/8/1r6/1R5K w - - 0 1 moves"}[r.Intn(3)]
+		l := pre + " " + almost[r.Intn(len(almost))]
+		if r.Intn(3) == 0 {
+			l += " e7e5"
+		}
+		return l
+	}
 	w := strings.Split(bases[r.Intn(len(bases))], " ")
 	switch r.Intn(6) {
 	case 0, 1: // replace a word
@@ -430,7 +442,7 @@ func raceScripts(r *rand.Rand, n int) []raceScript {
 				"> go wtime 1000 btime 1000 movestogo -1", "> go wtime 600 btime 600 movestogo 0", "> go wtime 800 btime 800 movestogo -2", "> go movestogo -1 movetime 200"}[r.Intn(12)]
 			ret = append(ret, raceScript{kind, []string{"slow 30", "> " + posA[a], g, "wait-bestmove 9000", "quiet 400", "sync"}, "time limits"})
 		case 6: // unknown and malformed lines
-			if i%22 == 6 {
+			if i%22 == 17 {
 				ret = append(ret, raceScript{kind, []string{"> foo bar", "> ", "> go depth", "sync", "> go depth x", "sync", "> position fen 8/8 w - - 0 1", "sync", "> position startpos moves e2e5", "sync", "> setoption", "> debug on",
 					"> " + posB[b], "> go depth 1", "wait-bestmove 8000", "alive"}, "malformed lines"})
 			} else {
